@@ -173,7 +173,7 @@ func TestSeeds(t *testing.T) {
 	}
 	sh, nsh := vh.Shard()
 	firsts := []gopacket.LayerType{layers.LayerTypeEthernet, layers.LayerTypeIPv4, layers.LayerTypeIPv6, layers.LayerTypeTCP, layers.LayerTypeUDP, layers.LayerTypeDNS, layers.LayerTypeDot11, layers.LayerTypeRadioTap, layers.LayerTypeLinuxSLL, layers.LayerTypeSCTP}
-	step := 40
+	step := 160
 	if vh.Thorough() {
 		step = 4
 	}
